@@ -10,6 +10,19 @@ import os
 import sys
 
 ROUND_FOCUS = {
+    6: ('Time is short: deliver ONE change only (call it "a"; skip "b"), '
+        'run the suite with -n 3 once at baseline and once with the change. '
+        'This time prefer: (1) state carried between two calls on the SAME '
+        'object (load then update then save then verify on one '
+        'ManifestRecursiveLoader; caches and dirty flags), (2) error paths '
+        '(what happens after an exception was caught and the operation '
+        'continued), (3) the less used of two sibling branches (the else '
+        'arm, the second hash, the compressed variant, the non-default '
+        'profile, AUX/EBUILD/MISC/DIST/TIMESTAMP/OPTIONAL/IGNORE tags), '
+        '(4) anything you find by reading the code that the list below '
+        'does not mention yet. It should look like a plausible refactoring '
+        'slip or "optimisation" a maintainer might make, not sabotage '
+        'with magic constants.'),
     5: ('This time prefer: (1) COMBINATIONS of two features that each work '
         'alone (compression x signing, IGNORE x symlinks, duplicate entries '
         'x sub-directory operations, profiles x incremental/timestamp '
